@@ -111,7 +111,8 @@ fn rand_bytes(r: &mut Rng, n: usize) -> Vec<u8> {
     (0..n).map(|_| r.next() as u8).collect()
 }
 fn rand_inputs(r: &mut Rng, max_inputs: usize, max_len: usize) -> Vec<Vec<u8>> {
-    let n = r.below(max_inputs as u64 + 1) as usize;
+    // a fifth of the sequences sit on the upper boundary of what one packet can carry
+    let n = if r.chance(0.2) { max_inputs - r.below(2) as usize } else { r.below(max_inputs as u64 + 1) as usize };
     let style = r.below(4);
     let base_len = r.below(max_len as u64 + 1) as usize;
     let mut prev: Vec<u8> = vec![];
@@ -254,6 +255,9 @@ pub enum Job {
     Hostile { seed: u64, count: u64 },
     RoundTripSmall { alphabet: Vec<u8>, max_len: usize, max_seq: usize, shard: usize, shards: usize },
     RoundTripRandom { seed: u64, count: u64, max_inputs: usize, max_len: usize },
+    /// the boundary of a legitimate packet: exactly 127/128/129 inputs (the sender pushes the new input before it tests for
+    /// more than 128 pending ones, so 129 is the largest packet that is really sent), of minimal, ordinary and maximal size
+    RoundTripBoundary { seed: u64 },
 }
 impl Job {
     fn id(&self) -> String {
@@ -262,6 +266,7 @@ impl Job {
             Job::Hostile { seed, .. } => format!("hostile-{seed}"),
             Job::RoundTripSmall { alphabet, max_len, max_seq, shard, .. } => format!("rt-small-a{}-l{max_len}-s{max_seq}-{shard}", alphabet.len()),
             Job::RoundTripRandom { seed, .. } => format!("rt-random-{seed}"),
+            Job::RoundTripBoundary { seed } => format!("rt-boundary-{seed}"),
         }
     }
 }
@@ -433,6 +438,40 @@ pub fn run_job(j: &Job) -> Outcome {
             }
             out.nontrivial = out.counters.get("round_trips_where_the_run_length_layer_compressed").copied().unwrap_or(0) > 0;
         }
+        Job::RoundTripBoundary { seed } => {
+            let mut r = Rng::new(*seed);
+            out.sample = json!({"job": j.id(), "what": "sequences of exactly 1, 2, 127, 128 and 129 inputs (129 = the largest packet a sender really emits) of 0, 1, 4, 255, 256 and 65535 bytes: all-zero, all-FF, random, and alternating-length inputs, against empty / equal-length / longer references"});
+            'outer: for n in [1usize, 2, 127, 128, 129] {
+                for len in [0usize, 1, 4, 255, 256, 65_535] {
+                    if len == 65_535 && n < 128 && n > 2 {
+                        continue;
+                    }
+                    for style in 0..4 {
+                        let seq: Vec<Vec<u8>> = (0..n)
+                            .map(|i| match style {
+                                0 => vec![0u8; len],
+                                1 => vec![0xFF; len],
+                                2 => rand_bytes(&mut r, len),
+                                _ => rand_bytes(&mut r, if i % 2 == 0 { len } else { len / 2 }),
+                            })
+                            .collect();
+                        let reference = match r.below(3) {
+                            0 => vec![],
+                            1 => rand_bytes(&mut r, len),
+                            _ => vec![0xFF; len + 3],
+                        };
+                        out.count("boundary_round_trips", 1);
+                        if n == 129 {
+                            out.count("boundary_round_trips_of_129_inputs", 1);
+                        }
+                        if !round_trip_one(&reference, &seq, &mut out) {
+                            break 'outer;
+                        }
+                    }
+                }
+            }
+            out.nontrivial = true;
+        }
     }
     out
 }
@@ -471,9 +510,10 @@ pub fn check(ctx: &Ctx) -> i32 {
     // round trip, random large
     for k in 0..ctx.n(16, 64) as u64 {
         jobs.push(Job::RoundTripRandom { seed: ctx.seed ^ (0xC14 + k), count: if ctx.quick() { 1500 } else { 15_000 }, max_inputs: 16, max_len: 64 });
-        jobs.push(Job::RoundTripRandom { seed: ctx.seed ^ (0xC1400 + k), count: if ctx.quick() { 12 } else { 120 }, max_inputs: 128, max_len: 65_535 });
-        jobs.push(Job::RoundTripRandom { seed: ctx.seed ^ (0xC140000 + k), count: if ctx.quick() { 300 } else { 3000 }, max_inputs: 128, max_len: 300 });
+        jobs.push(Job::RoundTripRandom { seed: ctx.seed ^ (0xC1400 + k), count: if ctx.quick() { 12 } else { 120 }, max_inputs: 129, max_len: 65_535 });
+        jobs.push(Job::RoundTripRandom { seed: ctx.seed ^ (0xC140000 + k), count: if ctx.quick() { 300 } else { 3000 }, max_inputs: 129, max_len: 300 });
     }
+    jobs.push(Job::RoundTripBoundary { seed: ctx.seed ^ 0xB0DA });
     let jobs: Vec<Job> = jobs.into_iter().filter(|j| ctx.only_case.as_ref().is_none_or(|o| *o == j.id())).collect();
     let res = par_run(ctx, &jobs, &|j: &Job| j.id(), &run_job);
     let mut extra = Map::new();
@@ -484,7 +524,7 @@ pub fn check(ctx: &Ctx) -> i32 {
     extra.insert("allocation_bound".into(), json!(format!("peak live growth during one decode <= 64 KiB + 16 x (|data| + {LEGIT_MAX}) bytes; a single request above 256 MiB is refused and reported")));
     let meta = Meta {
         level: "exploration",
-        rule: "round trip: decode(r, encode(r, seq)) == Ok(seq) for exhaustive small spaces (see exhaustive_subspaces) and random large ones (up to 128 inputs of up to 65535 bytes, zero/FF runs, near-copies, varying lengths, references shorter/longer than the inputs). Totality: decode is run under a counting allocator in child processes on exhaustive small byte strings and on random, mutated-genuine, varint-boundary, run-length-bomb and dangling-continuation strings; any panic, abort, refused allocation or peak live growth above the bound is a violation. Non-trivial: round-trip jobs in which the run-length layer actually compressed; totality jobs in which strings passed the run-length layer and reached the delta layer. Distinct: job (disjoint sub-space or PRNG stream).".into(),
+        rule: "round trip: decode(r, encode(r, seq)) == Ok(seq) for exhaustive small spaces (see exhaustive_subspaces) and random large ones (up to 129 inputs - the largest packet a sender emits - of up to 65535 bytes, a fifth of them with exactly 128 or 129 inputs, plus a boundary job with exactly 1/2/127/128/129 inputs of 0/1/4/255/256/65535 bytes, zero/FF runs, near-copies, varying lengths, references shorter/longer than the inputs). Totality: decode is run under a counting allocator in child processes on exhaustive small byte strings and on random, mutated-genuine, varint-boundary, run-length-bomb and dangling-continuation strings; any panic, abort, refused allocation or peak live growth above the bound is a violation. Non-trivial: round-trip jobs in which the run-length layer actually compressed; totality jobs in which strings passed the run-length layer and reached the delta layer. Distinct: job (disjoint sub-space or PRNG stream).".into(),
         assumptions: vec!["the codec entry points are reached through the verif-hooks re-export".into(), "peak live growth is measured by the harness's counting allocator (thread-local pointer table)".into(), "held on the inputs tried; exhaustive only where stated".into()],
         floor_nontrivial: if ctx.quick() { 30 } else { 150 },
         exhaustive: None,
